@@ -7,6 +7,8 @@ fn(c) returns the expected value or raises Skip; c is hv.monitors.c02.Ctx:
   c.status, c.year, c.amount(name), c.tax(x), c.sum(base_form, line)
 A transcribed rule is weaker evidence than a parsed one and is labelled so."""
 
+from hv import statutory as _st
+
 ALL = (2021, 2022, 2023)
 Y22 = (2022, 2023)
 W = '1040_qualdiv_capgain_tax_wkst'
@@ -96,6 +98,8 @@ RULES = [
     ('nc_d-400_sa', '10', ALL, lambda c: c.v('5') + c.v('6') + c.v('7d') + c.v('8') + c.v('9'), NC + ' Schedule A line 10'),
     ('nc_d-400_child_deduction_wkst', '2', ALL, lambda c: c.x('nc_d-400.6'), NC + ' child deduction worksheet line 2'),
     ('nc_d-400_child_deduction_wkst', '5', ALL, lambda c: c.v('3') * c.v('4'), NC + ' child deduction worksheet line 5'),
+    ('nc_d-400_child_deduction_wkst', '4', ALL, lambda c: float(_st.nc_child_deduction(c.year, c.status, c.x('nc_d-400.6'))),
+     NC + ' child deduction worksheet line 4: the table amount for the (whole-dollar) federal AGI carried to line 2 from D-400 line 6'),
     ('nc_d-400_consumer_use_tax_wkst', '4', (2021, 2023), lambda c: c.v('2') - c.v('3'), NC + ' consumer use tax worksheet line 4'),
     ('nc_d-400_consumer_use_tax_wkst', '6', (2022,), lambda c: c.v('2') + c.v('4') - c.v('5'), NC + ' 2022 consumer use tax worksheet line 6 (use tax of both periods less the credit)'),
     ('8606', '17', ALL, lambda c: c.v('11'), 'Form 8606 line 17: if you completed Part I, enter the amount from line 11'),
